@@ -30,3 +30,19 @@ package util
 //@   ensures [C11:deployment-name-is-replicaset-name-before-last-dash] len(pod.OwnerReferences) == 1 && pod.OwnerReferences[0].Kind == "ReplicaSet" ==> (lastIndexOf(pod.OwnerReferences[0].Name, "-") == -1 ? result == pod.OwnerReferences[0].Name : result == substr(pod.OwnerReferences[0].Name, 0, lastIndexOf(pod.OwnerReferences[0].Name, "-")))
 //@   ensures [C11:no-deployment-name-otherwise] !(len(pod.OwnerReferences) == 1 && pod.OwnerReferences[0].Kind == "ReplicaSet") ==> result == ""
 //@   modifies nothing
+
+// ---- app type <-> app type prefix (C11): what the list API shows must rebuild the stored prefix ----
+//@ axiom noRefLiteral: "NULL" + "_" == "NULL_" && len("NULL") == 4 && len("NULL_") == 5
+//@ pure typePrefixOf(kind string) string = kind == "NULL" ? "NULL_" : ((toLower(kind) == "statefulset" || toLower(kind) == "statefulsets") ? "sts_" : ((toLower(kind) == "replicaset" || toLower(kind) == "deployment") ? "dp_" : toLower(kind) + "_"))
+//@ pure typeOfPrefix(p string) string = p == "dp_" ? "deployment" : (p == "sts_" ? "statefulset" : (len(p) > 0 ? substr(p, 0, len(p) - 1) : ""))
+//@ func [C11,C18] GetAppTypePrefix
+//@   ensures [C11:prefix-of-kind] result == typePrefixOf(kind)
+//@   modifies nothing
+//@ func [C11,C18] GetAppType
+//@   ensures [C11:type-of-prefix] result == typeOfPrefix(appTypePrefix)
+//@   modifies nothing
+// every prefix FormatKey can store is either typePrefixOf(kind) for the owner's kind, or "NULL_"
+//@ lemma [C11] listedTypeRebuildsPrefix(kind string)
+//@   ensures [C11:listed-type-rebuilds-stored-prefix] typePrefixOf(typeOfPrefix(typePrefixOf(kind))) == typePrefixOf(kind)
+//@ lemma [C11] listedTypeRebuildsNoRefPrefix()
+//@   ensures [C11:listed-type-rebuilds-noref-prefix] typePrefixOf(typeOfPrefix("NULL_")) == "NULL_"
